@@ -281,6 +281,7 @@ class Net:
         self.record_bytes = record_bytes
         self.on_send_hook: Optional[Callable[[dict, bytes], None]] = None
         self.on_recv_hook: Optional[Callable[[dict, bytes], None]] = None
+        self.on_recv_done_hook: Optional[Callable[[dict], None]] = None
         self._creating: Optional[Host] = None
         self.loop.set_exception_handler(self._exc_handler)
 
@@ -429,7 +430,9 @@ class Net:
         except Exception as ex:  # noqa: BLE001 - this is exactly what a selector transport hands to the loop
             self.emit(rsock.host.name, 'exc', where='datagram_received', cls=type(ex).__name__, msg=str(ex)[:200],
                       n=n)
-        self.emit(rsock.host.name, 'recv_done', n=n)
+        d = self.emit(rsock.host.name, 'recv_done', n=n)
+        if self.on_recv_done_hook:
+            self.on_recv_done_hook(d)
 
     # ---------------------------------------------------------------- time helpers for scenarios
     async def sleep_until(self, t_ms: float) -> None:
